@@ -886,6 +886,14 @@ Proof.
               destruct (Hlost Hne) as (_ & X). discriminate.
 Qed.
 
+(* BoundedBatchPool without cancel-on-close flags: exactly once, Close waits *)
+Corollary d_monitor_plain evs : is_batch = true -> ca = false -> cr = false ->
+  C37_monitor (d_hist (d_run evs)) = 0.
+Proof.
+  intros Hb Hca Hcr. pose proof (d_monitor evs) as H. unfold dcode in H. rewrite Hb, Hca, Hcr in H.
+  destruct H as [H|H]; exact H.
+Qed.
+
 Theorem d_accepts evs : C37_mismatch (d_hist (d_run evs)) = false.
 Proof.
   pose proof (inv_run evs) as HI. unfold C37_mismatch. apply negb_false_iff.
